@@ -1,5 +1,5 @@
 """M3: Serde/StrConv/Builder models (Lean, drv_ir) vs the compiled generated code (batch pipeline)."""
-import json, subprocess
+import json, re, subprocess
 import vlib
 from batch import canon, split_answer
 
@@ -19,6 +19,12 @@ def model_answers(cases, requests):
     bad = [o for o in out[:nreg] if o != "ok"]
     return out[nreg:], len(bad)
 
+BUILD_OPS = ("build", "build_str", "build_refstr")
+def _build_err(msg):
+    """builder error text up to the property name: the model does not carry the inner conversion error's text"""
+    m = re.match(r"(error converting supplied value for [^:]*):", msg)
+    return m.group(1) if m else msg
+
 def norm_real(op, ans):
     """canonical (status, payload) of a compiled-code answer"""
     st, parts = split_answer(ans)
@@ -26,7 +32,7 @@ def norm_real(op, ans):
         try: return ("ok", tuple(canon(p) for p in parts))
         except Exception: return ("ok?", tuple(parts))
     if st in ("err", "err2", "ser_err"):
-        if op in ("build", "build_str", "build_refstr") and parts: return ("err", (parts[0],))
+        if op in BUILD_OPS and parts: return ("err", (_build_err("\t".join(parts)),))
         return ("err", ())
     if st == "badvalue": return ("badvalue", tuple(parts[:1]))
     return (st, ())
@@ -38,7 +44,7 @@ def norm_model(op, ans):
         try: return ("ok", tuple(canon(p) for p in parts))
         except Exception: return ("ok?", tuple(parts))
     if st == "err":
-        if op in ("build",) and rest: return ("err", (rest,))
+        if op in BUILD_OPS and rest: return ("err", (_build_err(rest),))
         return ("err", ())
     if st == "badvalue": return ("badvalue", (rest,))
     return (st, ())
